@@ -25,11 +25,63 @@ theorem InPlaceStep.isolation {h h' : Heap} {i : Nat} (w : WF h) (s : Sep h)
   refine ⟨?_, observe_congr hrec_same hbuf_same, ownBufs_congr (fun r hr => by rw [hrec_same r hr])⟩
   rw [hobjs, List.getElem?_set_ne (Ne.symm hji)]; exact hb
 
+/-- What the new receiver state owns was owned before or is fresh. -/
+theorem InPlaceStep.own_new {h h' : Heap} {i : Nat} (st : InPlaceStep h h' i) :
+    ∃ a a', h.objs[i]? = some a ∧ h'.objs = h.objs.set i a' ∧
+      (∀ x ∈ ownBufs h' a', x ∈ ownBufs h a ∨ h.bufs.length ≤ x) ∧
+      (∀ r ∈ a'.bases, r ∈ a.bases ∨ h.recs.length ≤ r) := by
+  obtain ⟨a, a', ha, hobjs, _, _, _, hrecs, hbases', hcps', hrk⟩ := st
+  refine ⟨a, a', ha, hobjs, ?_, fun r hr => (hbases' r hr).imp id (fun hh => hh.1)⟩
+  intro x hx
+  rw [mem_ownBufs] at hx
+  rcases hx with rfl | hx
+  · exact hcps'.imp id (fun hh => hh.1)
+  · rw [mem_knotBufs] at hx
+    obtain ⟨b, hb, rec, hrec, rfl⟩ := hx
+    have hb' := (hbases' b hb).imp id (fun hh => hh.1)
+    exact (hrk b rec hrec hb').imp id (fun hh => hh.1)
+
+/-- **Well-formedness is preserved by the in-place contract** (proved from what the step may do). -/
+theorem InPlaceStep.wf {h h' : Heap} {i : Nat} (w : WF h) (st : InPlaceStep h h' i) : WF h' := by
+  obtain ⟨a, a', ha, hobjs, hbl, hrl, hbufs, hrecs, hbases', hcps', hrk⟩ := st
+  have ham : a ∈ h.objs := List.mem_of_getElem? ha
+  refine ⟨?_, ?_, ?_⟩
+  · intro o ho
+    rw [hobjs] at ho
+    rcases List.mem_or_eq_of_mem_set ho with ho | rfl
+    · have := w.cps_lt o ho; omega
+    · rcases hcps' with hc | hc
+      · have := w.ownBufs_lt ham hc; omega
+      · exact hc.2
+  · intro o ho b hb
+    rw [hobjs] at ho
+    rcases List.mem_or_eq_of_mem_set ho with ho | rfl
+    · have := w.bases_lt o ho b hb; omega
+    · rcases hbases' b hb with hb | hb
+      · have := w.bases_lt a ham b hb; omega
+      · exact hb.2
+  · intro rec hrec
+    obtain ⟨r, hr⟩ := List.mem_iff_getElem?.mp hrec
+    by_cases hold : r < h.recs.length ∧ r ∉ a.bases
+    · have := hrecs r hold.1 hold.2
+      rw [this] at hr
+      have := w.knots_lt rec (List.mem_of_getElem? hr); omega
+    · have hcase : r ∈ a.bases ∨ h.recs.length ≤ r := by
+        by_cases hlt : r < h.recs.length
+        · left
+          apply Classical.byContradiction
+          intro hn; exact hold ⟨hlt, hn⟩
+        · right; omega
+      rcases hrk r rec hr hcase with hk | hk
+      · have := w.ownBufs_lt ham hk; omega
+      · exact hk.2
+
 /-- The in-place contract preserves the invariant. -/
 theorem InPlaceStep.inv {h h' : Heap} {i : Nat} (hi : Invariant h) (st : InPlaceStep h h' i) : Invariant h' := by
   obtain ⟨w, s⟩ := hi
   have st' := st
-  obtain ⟨a, a', ha, hobjs, _, _, hbufs, hrecs, hbases', hown', w'⟩ := st
+  have w' := st.wf w
+  obtain ⟨a, a', ha, hobjs, hown', hbases'⟩ := st.own_new
   refine ⟨w', ?_⟩
   have hilt : i < h.objs.length := lt_of_getElem?_eq_some ha
   -- the receiver's new state against any other (old) object
@@ -75,7 +127,7 @@ theorem InPlaceStep.inv {h h' : Heap} {i : Nat} (hi : Invariant h) (st : InPlace
 theorem FreshStep.isolation {h h' : Heap} (w : WF h) (st : FreshStep h h')
     {j : Nat} {b : Obj} (hb : h.objs[j]? = some b) :
     h'.objs[j]? = some b ∧ observe h' b = observe h b ∧ ownBufs h' b = ownBufs h b := by
-  obtain ⟨news, bufs', recs', hobjs, hbufs, hrecs, _, _, _, _⟩ := st
+  obtain ⟨news, bufs', recs', hobjs, hbufs, hrecs, _, _, _⟩ := st
   have hbm : b ∈ h.objs := List.mem_of_getElem? hb
   have hrec_same : ∀ r ∈ b.bases, h'.recs[r]? = h.recs[r]? := by
     intro r hr
@@ -86,23 +138,44 @@ theorem FreshStep.isolation {h h' : Heap} (w : WF h) (st : FreshStep h h')
   refine ⟨?_, observe_congr hrec_same hbuf_same, ownBufs_congr (fun r hr => by rw [hrec_same r hr])⟩
   rw [hobjs, List.getElem?_append_left (lt_of_getElem?_eq_some hb)]; exact hb
 
+/-- **Well-formedness is preserved by allocation** (proved from what the step may do). -/
+theorem FreshStep.wf {h h' : Heap} (w : WF h) (st : FreshStep h h') : WF h' := by
+  obtain ⟨news, bufs', recs', hobjs, hbufs, hrecs, hnew, hrecs', _⟩ := st
+  refine ⟨?_, ?_, ?_⟩
+  · intro o ho
+    rw [hobjs, List.mem_append] at ho
+    rcases ho with ho | ho
+    · have := w.cps_lt o ho; rw [hbufs, List.length_append]; omega
+    · exact (hnew o ho).1.2
+  · intro o ho b hb
+    rw [hobjs, List.mem_append] at ho
+    rcases ho with ho | ho
+    · have := w.bases_lt o ho b hb; rw [hrecs, List.length_append]; omega
+    · exact ((hnew o ho).2 b hb).2
+  · intro r hr
+    rw [hrecs, List.mem_append] at hr
+    rcases hr with hr | hr
+    · have := w.knots_lt r hr; rw [hbufs, List.length_append]; omega
+    · exact (hrecs' r hr).2
+
 /-- Allocation preserves the invariant. -/
 theorem FreshStep.inv {h h' : Heap} (hi : Invariant h) (st : FreshStep h h') : Invariant h' := by
   obtain ⟨w, s⟩ := hi
   have st' := st
-  obtain ⟨news, bufs', recs', hobjs, hbufs, hrecs, hnew, hrecs', hpair, w'⟩ := st
+  have w' := st.wf w
+  obtain ⟨news, bufs', recs', hobjs, hbufs, hrecs, hnew, hrecs', hpair⟩ := st
   refine ⟨w', ?_⟩
   -- everything a new object owns is fresh
   have fresh_own : ∀ o ∈ news, ∀ x ∈ ownBufs h' o, h.bufs.length ≤ x := by
     intro o ho x hx
     rw [mem_ownBufs] at hx
     rcases hx with rfl | hx
-    · exact (hnew o ho).1
+    · exact (hnew o ho).1.1
     · rw [mem_knotBufs] at hx
       obtain ⟨b, hb, r, hr, rfl⟩ := hx
-      have hge := (hnew o ho).2 b hb
+      have hge := ((hnew o ho).2 b hb).1
       rw [hrecs, List.getElem?_append_right hge] at hr
-      exact hrecs' r (List.mem_of_getElem? hr)
+      exact (hrecs' r (List.mem_of_getElem? hr)).1
   have key : ∀ (j : Nat) (b o : Obj), h.objs[j]? = some b → o ∈ news →
       ((∀ x ∈ ownBufs h' o, x ∉ ownBufs h' b) ∧ (∀ r ∈ o.bases, r ∉ b.bases)) := by
     intro j b o hb ho
@@ -114,7 +187,7 @@ theorem FreshStep.inv {h h' : Heap} (hi : Invariant h) (st : FreshStep h h') : I
       have := fresh_own o ho x hx
       have := w.ownBufs_lt hbm hxb; omega
     · intro r hr hrb
-      have := (hnew o ho).2 r hr
+      have := ((hnew o ho).2 r hr).1
       have := w.bases_lt b hbm r hrb; omega
   intro p q x y hpq hx hy
   rw [hobjs] at hx hy
@@ -140,19 +213,15 @@ theorem FreshStep.inv {h h' : Heap} (hi : Invariant h) (st : FreshStep h h') : I
       exact hpair (p - h.objs.length) (q - h.objs.length) x y (by omega) hx hy
 
 /-- A `query` transition is an allocation without new objects or records. -/
-theorem QueryStep.fresh {h h' : Heap} (w : WF h) (st : QueryStep h h') : FreshStep h h' := by
+theorem QueryStep.fresh {h h' : Heap} (st : QueryStep h h') : FreshStep h h' := by
   obtain ⟨hobjs, hrecs, extra, hbufs⟩ := st
-  refine ⟨[], extra, [], by simp [hobjs], hbufs, by simp [hrecs], by simp, by simp, by simp, ?_⟩
-  refine ⟨?_, ?_, ?_⟩
-  · intro o ho; rw [hobjs] at ho; rw [hbufs, List.length_append]; have := w.cps_lt o ho; omega
-  · intro o ho b hb; rw [hobjs] at ho; rw [hrecs]; exact w.bases_lt o ho b hb
-  · intro r hr; rw [hrecs] at hr; rw [hbufs, List.length_append]; have := w.knots_lt r hr; omega
+  exact ⟨[], extra, [], by simp [hobjs], hbufs, by simp [hrecs], by simp, by simp, by simp⟩
 
 theorem ContractStep.inv {h h' : Heap} (hi : Invariant h) (st : ContractStep h h') : Invariant h' := by
   rcases st with ⟨i, st⟩ | st | st
   · exact st.inv hi
   · exact st.inv hi
-  · exact (st.fresh hi.1).inv hi
+  · exact st.fresh.inv hi
 
 theorem Reachable.inv {h : Heap} (r : Reachable h) : Invariant h := by
   induction r with
